@@ -1,0 +1,15 @@
+//go:build verif
+
+package poly1305
+
+// VerifSumGeneric is the pure Go one-shot MAC (sumGeneric).
+func VerifSumGeneric(out *[TagSize]byte, msg []byte, key *[32]byte) { sumGeneric(out, msg, key) }
+
+// VerifGenericMAC is the pure Go incremental MAC (macGeneric).
+type VerifGenericMAC struct{ m macGeneric }
+
+// VerifNewGeneric returns the pure Go incremental MAC.
+func VerifNewGeneric(key *[32]byte) *VerifGenericMAC { return &VerifGenericMAC{newMACGeneric(key)} }
+
+func (g *VerifGenericMAC) Write(p []byte) (int, error) { return g.m.Write(p) }
+func (g *VerifGenericMAC) Sum(out *[TagSize]byte)      { g.m.Sum(out) }
